@@ -157,6 +157,7 @@ VEC_DECL(vec_mpz, mpz_ptr)   /* std::vector<mpz_ptr> when stl.h is in use */
 #endif
 /* spec-level names for the same terms (used in contracts) */
 /* side condition "machine arithmetic treated as mathematical" for spec terms that add or negate */
+#define MPZ_OK(x) __CPROVER_is_fresh((x), sizeof(__mpz_struct))
 #define WORD_OK(x) ((x) > -0x7ffffffffffffff0L && (x) < 0x7ffffffffffffff0L)
 #define V(x) ((x)->v)
 #define MUL(a, b) UF(mul)((a), (b))
